@@ -421,6 +421,16 @@ func (e *absEnv) binop(op token.Token, a, b aval) aval {
 			return aint(0)
 		}
 	}
+	// a function value supplied by the case is not nil
+	if op == token.EQL || op == token.NEQ {
+		_, fa := a.(acb)
+		_, fb := b.(acb)
+		_, na := a.(anil)
+		_, nb := b.(anil)
+		if (fa && nb) || (fb && na) {
+			return abool(op == token.NEQ)
+		}
+	}
 	// pointer identity
 	if x, ok := a.(aptr); ok {
 		if y, ok := b.(aptr); ok {
